@@ -5,6 +5,15 @@ here = os.path.dirname(os.path.dirname(os.path.abspath(__file__)))
 
 # id -> (technique, level text, level note, design ref)
 CHECKS = {
+    "C19": (
+        "Hypothesis-generated (old db, new input, force) triples and read-call sequences; differential snapshot oracle + SQL statement tracing from outside",
+        "create_db onto an existing file must raise without force and leave the snapshot unchanged, and with force must equal an import into a fresh "
+        "path; generated sequences of 5-30 read-style calls (17 kinds, generated arguments, generators consumed or abandoned, calls that raise) are "
+        "traced with sqlite3 set_trace_callback: only SELECT/PRAGMA/EXPLAIN may be issued, no transaction may stay open, and the reopened file's "
+        "snapshot and bytes must be unchanged.",
+        "Statement classification by first keyword; reference bytes taken after one open/close cycle.",
+        "DESIGN.md section 4 C19",
+    ),
     "C18": (
         "Hypothesis-generated reference FASTA + features, and transcript structures; arithmetic / slice / own reverse-complement / BED12 field oracles",
         "len(), sequence() (path or pyfaidx object, use_strand on/off, IUPAC codes in both cases, features spanning FASTA line breaks) are compared with a "
